@@ -1,7 +1,7 @@
 import CookModel.Lemmas.FragDefs
 /-
   C05 at fragment level, the component parsers (`ingredient`, `cookware`, `timer` of step.rs and the
-  quantity sub-parser of quantity.rs): every token that can hold a letter or digit (`Core`) between the
+  quantity sub-parser of quantity.rs): every token that can hold a letter or digit (`CoreTok`) between the
   cursor before and the cursor after lies inside a FRAGMENT of a text of the returned event (name, alias,
   note, unit, the text a text value was trimmed from) or inside the span of its modifiers or of its
   number — or an `Error` event was pushed (an alias after a second `|`, an empty alias, modifiers or an
@@ -22,7 +22,7 @@ variable {off : Nat} {w : List Char} {Pv : Array (Ev α) → Prop} {ts : List To
 
 /-- `Pv`, and: if `X` had an error, the queue has one -/
 def ErrKept (X : Array (Ev α)) (Pv : Array (Ev α) → Prop) : Array (Ev α) → Prop :=
-  fun evs => Pv evs ∧ (HasErr X → HasErr evs)
+  fun evs => Pv evs ∧ (HasErrEv X → HasErrEv evs)
 
 theorem UpP.kept (hup : UpP Pv) (X : Array (Ev α)) : UpP (ErrKept X Pv) :=
   fun evs ev ⟨a, b⟩ => ⟨hup _ _ a, fun x => (b x).push ev⟩
@@ -80,7 +80,7 @@ theorem frag_valHolds_span {v : Value α} {sp : Span} {p q : Nat} (hv : v.isText
 
 /-! ### quantities -/
 
-theorem Core.notLock {t : Tok} (h : Core cs t) : ¬ (isWsComment t.kind = true ∨ t.kind = .eq) := by
+theorem CoreTok.notLock {t : Tok} (h : CoreTok cs t) : ¬ (isWsComment t.kind = true ∨ t.kind = .eq) := by
   rintro (h1 | h1)
   · rw [h.1.notWsComment] at h1; cases h1
   · exact h.1.2.2.2.2.1 h1
@@ -155,7 +155,7 @@ theorem parseValue_fc (hup : UpP Pv) (hw : WFI off w ts) (h : GE Pv ts e s) {o :
 
 theorem qvalue_fc (hup : UpP Pv) (hw : WFI off w ts) (h : GE Pv ts e s) (hcs : s.cs = cs) :
     Sat (qvalue (α := α)) s (fun r s' => GE Pv ts e s' ∧ s.cur ≤ s'.cur ∧
-      (∀ i t, s.cur ≤ i → i < s'.cur → ts[i]? = some t → Core cs t →
+      (∀ i t, s.cur ≤ i → i < s'.cur → ts[i]? = some t → CoreTok cs t →
         ValHolds cs r.value (tokBodyStart t) t.stop) ∧
       (∀ t, ts[s'.cur]? = some t → t.kind = .percent)) := by
   unfold qvalue
@@ -182,14 +182,14 @@ theorem qvalue_fc (hup : UpP Pv) (hw : WFI off w ts) (h : GE Pv ts e s) (hcs : s
 
 theorem parseRegularQuantity_fc (hup : UpP Pv) (hw : WFI off w ts) (h : GE Pv ts e s) (hcs : s.cs = cs) :
     Sat (parseRegularQuantity (α := α)) s (fun r s' => GE Pv ts e s' ∧
-      ∀ i t, s.cur ≤ i → ts[i]? = some t → Core cs t →
+      ∀ i t, s.cur ≤ i → ts[i]? = some t → CoreTok cs t →
         QtyHolds cs r.quantity.val (tokBodyStart t) t.stop) := by
   unfold parseRegularQuantity
   refine Sat.bind (Sat.mono ((qvalue_fc hup hw h hcs).fragCs (qvalue_indGA fragFlags_4)) ?_)
   rintro value s1 ⟨⟨g1, c1, hval, hpc⟩, cs1⟩
   apply Sat.bind
   apply Sat.mono (Q := fun (u : Option (Span × Text)) s' => GE Pv ts e s' ∧ s'.cs = cs ∧
-    ∀ i t, s1.cur ≤ i → ts[i]? = some t → Core cs t →
+    ∀ i t, s1.cur ≤ i → ts[i]? = some t → CoreTok cs t →
       ∃ p, u = some p ∧ p.2.holds (tokBodyStart t) t.stop ∧ p.2.isTextEmpty cs = false)
   · refine Sat.bind (peekK_sat g1.g ?_)
     split
@@ -273,7 +273,7 @@ theorem frag_rtrim_mem (p : Tok → Bool) (l : List Tok) {t : Tok} (ht : t ∈ l
 
 theorem parseAdvancedQuantity_fc (hup : UpP Pv) (hw : WFI off w ts) (h : GE Pv ts e s) :
     Sat (parseAdvancedQuantity (α := α)) s (fun r s' => GE Pv ts e s' ∧
-      ∀ pq, r = some pq → ∀ i t, s.cur ≤ i → ts[i]? = some t → Core cs t →
+      ∀ pq, r = some pq → ∀ i t, s.cur ≤ i → ts[i]? = some t → CoreTok cs t →
         QtyHolds cs pq.quantity.val (tokBodyStart t) t.stop) := by
   unfold parseAdvancedQuantity
   refine Sat.bind (allToks_sat h.g ?_)
@@ -361,7 +361,7 @@ theorem parseAdvancedQuantity_fc (hup : UpP Pv) (hw : WFI off w ts) (h : GE Pv t
 theorem parseQuantity_fc {q : List Tok} (hup : UpP Pv) (hw : WFI off w ts) (hq : WFI off w q)
     (h : GE Pv ts e s) (hcs : s.cs = cs) :
     Sat (parseQuantity (α := α) q) s (fun r s' => GE Pv ts e s' ∧ s'.cur = s.cur ∧
-      ∀ t ∈ q, Core cs t → QtyHolds cs r.quantity.val (tokBodyStart t) t.stop) := by
+      ∀ t ∈ q, CoreTok cs t → QtyHolds cs r.quantity.val (tokBodyStart t) t.stop) := by
   unfold parseQuantity
   have hne : q.isEmpty = false := by
     have := hq.ne
@@ -374,7 +374,7 @@ theorem parseQuantity_fc {q : List Tok} (hup : UpP Pv) (hw : WFI off w ts) (hq :
   have cs0 : ({ s with toks := q, cur := 0 } : BP α).cs = cs := hcs
   apply Sat.bind
   apply Sat.mono (Q := fun r s' => GE Pv q e s' ∧ s'.cs = cs ∧ (r = none → s'.cur = 0) ∧
-    ∀ pq, r = some pq → ∀ i t, 0 ≤ i → q[i]? = some t → Core cs t →
+    ∀ pq, r = some pq → ∀ i t, 0 ≤ i → q[i]? = some t → CoreTok cs t →
       QtyHolds cs pq.quantity.val (tokBodyStart t) t.stop)
   · refine Sat.bind (hasExt_sat g0.g ?_)
     split
@@ -389,7 +389,7 @@ theorem parseQuantity_fc {q : List Tok} (hup : UpP Pv) (hw : WFI off w ts) (hq :
   rintro adv s1 ⟨g1, cs1, hcur, hadv⟩
   apply Sat.bind
   apply Sat.mono (Q := fun r s' => GE Pv q e s' ∧
-    ∀ t ∈ q, Core cs t → QtyHolds cs r.quantity.val (tokBodyStart t) t.stop)
+    ∀ t ∈ q, CoreTok cs t → QtyHolds cs r.quantity.val (tokBodyStart t) t.stop)
   · split
     · rename_i pq
       refine Sat.pure ⟨g1, ?_⟩
